@@ -97,6 +97,12 @@ def scenario(name, p, workdir: Path, rank: int):
     conf = Configuration.create(rmin=0.005, rmax=0.08, unit="rad", edges=edges)
     if name == "create":
         df = frame(p["n"], p["seed"], ncent, with_patch=p["mode"] == "ids")
+        if p.get("source"):          # from a file written by the harness before the world started (root reads, others get chunks)
+            kw = dict(ra_name="ra", dec_name="dec", redshift_name="z", weight_name="w", degrees=False,
+                      chunksize=p["chunksize"], overwrite=True, max_workers=mw, progress=prog,
+                      patch_centers=AngularCoordinates(CENT[:ncent]))
+            cat = Catalog.from_file(workdir / "cat", workdir / f"input.{p['source']}", **kw)
+            return cat_summary(cat)
         cat = make_catalog(workdir / "cat", df, ncent, p["mode"], mw, p["chunksize"], prog)
         return cat_summary(cat)
     if name == "load":
@@ -133,7 +139,10 @@ def scenario(name, p, workdir: Path, rank: int):
         cd = back.sample()
         cd.to_files(workdir / "cd")
         cd2 = type(cd).from_files(workdir / "cd")
-        return {"cf": cf_summary(back), "same": bool(back == cf), "cd": digest(cd2.data, cd2.samples),
+        conf.to_file(workdir / "conf.yml")
+        conf2 = Configuration.from_file(workdir / "conf.yml")
+        return {"conf": bool(conf2 == conf) and conf2.binning.edges.tolist() == conf.binning.edges.tolist(),
+                "cf": cf_summary(back), "same": bool(back == cf), "cd": digest(cd2.data, cd2.samples),
                 "cd_text": hashlib.sha1((workdir / "cd.dat").read_bytes() + (workdir / "cd.smp").read_bytes()).hexdigest()[:16]}
     if name == "iter":          # the dispatch protocol alone: tasks -> results
         tasks = list(range(p["ntasks"]))
@@ -149,6 +158,19 @@ def _square(x):
 def prepare(workdir: Path, p):
     """pre-built caches for the scenarios that start from existing catalogs (built without MPI semantics: by rank 0 of
     a reference world is not possible here, so they are created by the harness and copied in)"""
+    if p.get("source"):
+        df = frame(p["n"], p["seed"], p.get("ncent", 3))
+        path = workdir / f"input.{p['source']}"
+        if p["source"] == "hdf5":
+            import h5py
+            with h5py.File(path, "w") as f:
+                for k in df.columns:
+                    f[k] = df[k].to_numpy()
+        elif p["source"] == "pqt":
+            df.to_parquet(path, row_group_size=7)
+        else:
+            from astropy.io import fits
+            fits.BinTableHDU.from_columns([fits.Column(name=k, format="D", array=df[k].to_numpy()) for k in df.columns]).writeto(path)
     src = Path(p["prebuilt"]) if p.get("prebuilt") else None
     if src is not None:
         for name in ("pre_d", "pre_r", "pre_u"):
